@@ -209,6 +209,21 @@ def evaluate(workdir, results, tag='cases'):
     return mm, ff
 
 
+def build_harness():
+    """normal build; when host.ParseClientKey / ParseConsensusStateKey do not exist in the tree under test (the code before the
+    repair of D7) the harness is rebuilt with the tag c19_noparsekey so that every other case still runs on the real code"""
+    ok, out = vlib.build_harness(['c19'])
+    if ok:
+        return True, out, False
+    if 'ParseClientKey' in out or 'ParseConsensusStateKey' in out:
+        rc, out2 = vlib.sh("flock .lock go build -tags 'verif c19_noparsekey' -o bin/c19 ./cmd/c19",
+                           cwd=os.path.join(vlib.ROOT, 'harness'), timeout=1800)
+        if rc == 0:
+            return True, out, True
+        out += out2
+    return False, out, False
+
+
 def run_specs(workdir, specs, tag):
     inp = os.path.join(workdir, tag + '_in.jsonl')
     out = os.path.join(workdir, tag + '_out.jsonl')
@@ -243,7 +258,7 @@ def still_fails(workdir, case, kinds, tag='shrink'):
 def shrink(workdir, case, kind):
     """greedy shrinking of a single failing case (re-running the real code each time)"""
     best = json.loads(json.dumps(dict(kind=case['kind'], spec=case['spec'])))
-    budget = 30
+    budget = 14
 
     def attempt(cand):
         nonlocal best, budget
@@ -270,6 +285,15 @@ def shrink(workdir, case, kind):
                 cand = json.loads(json.dumps(best))
                 cand['spec'][fam] = []
                 attempt(cand)
+        for fam in ('commitments', 'acks', 'receipts', 'nextseq'):
+            while len(best['spec'].get(fam) or []) > 1 and budget > 0:
+                cand = json.loads(json.dumps(best))
+                cand['spec'][fam] = cand['spec'][fam][:max(1, len(cand['spec'][fam]) // 2)]
+                if not attempt(cand):
+                    cand = json.loads(json.dumps(best))
+                    cand['spec'][fam] = cand['spec'][fam][len(cand['spec'][fam]) // 2:]
+                    if not attempt(cand):
+                        break
         changed = True
         while changed and budget > 0:
             changed = False
@@ -310,31 +334,42 @@ def search_schema_witness(run, ty):
     return None
 
 
-def search_key_collision(run, name):
-    """key_ok is false for builder `name`: enumerate small argument tuples in Coq, confirm a collision with the real builder"""
-    i, term, _ = KEYFNS[name]
-    res = vlib.coq_eval_lists(run.work, 'collide_%d.v' % i, HEADER, '', [('C', 'find_collision_in %s small_triples' % term)])
-    txt = res.get('C') or ''
-    if 'Some' not in txt:
-        return None
-    import re
-    # printed: Some ([VS [...]; VS [...]; VN 1], [VS ...; VS ...; VN ...]) with bytes printed as "a"%byte
-    lists = re.findall(r'\[VS \[(.*?)\]; VS \[(.*?)\]; VN (\d+)\]', txt)
-    if len(lists) != 2:
-        return None
+KEY_STATE_SIGS = ['[KStr; KStr; KNum]'] * 4 + ['[KStr; KStr]', '[KStr]', '[KStr; KNum; KNum]'] + ['[KNum; KNum]'] * 4 + ['[KHash; KNum]'] * 2
 
-    def dec(bs):
-        out = bytearray()
-        for m in re.finditer(r'"(.*?)"%byte', bs):
-            t = m.group(1)
-            out.append(int(t) if len(t) == 3 and t.isdigit() else ord(t))
-        return bytes(out)
-    cases = []
-    for n, (a, b, c) in enumerate(lists):
-        cases.append(dict(id=n, kind='key', spec=dict(fn=name, args=[dict(t='s', v=dec(a).hex()), dict(t='s', v=dec(b).hex()),
-                                                                     dict(t='u', v=c)])))
+
+def search_key_collision(run, idx):
+    """key_ok is false for builder KEY_STATE_NAMES[idx]: enumerate small argument tuples in Coq (vm_compute), confirm a
+    collision by calling the real Go builder on both tuples"""
+    name = KEY_STATE_NAMES[idx]
+    i, term, _ = KEYFNS[name]
+    res = vlib.coq_eval_lists(run.work, 'collide_%d.v' % i, HEADER, '', [('C', 'collision_search %s %s' % (term, KEY_STATE_SIGS[idx]))])
+    import re
+    nums = [int(x) for x in re.findall(r'\d+', res.get('C') or '')]
+    if not nums:
+        return None
+    tuples, cur, p = [], [], 0
+    while p < len(nums):
+        t = nums[p]
+        if t == 2:
+            tuples.append(cur)
+            cur = []
+            p += 1
+        elif t == 0:
+            ln = nums[p + 1]
+            cur.append(dict(t='s', v=bytes(nums[p + 2:p + 2 + ln]).hex()))
+            p += 2 + ln
+        else:
+            cur.append(dict(t='u', v=str(nums[p + 1])))
+            p += 2
+    tuples.append(cur)
+    if len(tuples) != 2:
+        return None
+    if name.startswith('eth.'):
+        for t in tuples:
+            t[0]['t'] = 'b'
+    cases = [dict(id=n, kind='key', spec=dict(fn=name, args=t)) for n, t in enumerate(tuples)]
     rs = run_specs(run.work, cases, 'collide_%d' % i)
-    if rs and len(rs) == 2 and rs[0]['obs']['class'] == 0 and rs[0]['obs']['out'] == rs[1]['obs']['out']:
+    if rs and len(rs) == 2 and rs[0]['obs'].get('class') == 0 and rs[0]['obs'].get('out') == rs[1]['obs'].get('out'):
         return dict(cases=cases, observed=[r['obs'] for r in rs])
     return None
 
@@ -410,7 +445,7 @@ def is_utf8(b):
 def report_case_failures(run, results, ff, mm):
     reported = set()
     for c, k in ff:
-        if (c, 'f') in reported or len(run.violations) >= 3:
+        if (c, 'f') in reported or len(run.violations) >= 2:
             continue
         reported.add((c, 'f'))
         r = results[c]
@@ -441,11 +476,14 @@ def check(run):
                            explanation='a key builder / ABI schema of /repo is outside the subset the translator understands: '
                                        'the tie between the Go source and the Coq terms is broken'), no_input=True)
         return run.finish()
-    ok, out = vlib.build_harness(['c19'])
+    ok, out, degraded = build_harness()
     if not ok:
         run.violation(dict(kind='harness-build-failed', log=out[-3000:],
                            explanation='the correspondence harness no longer builds against /repo'), no_input=True)
         return run.finish()
+    if degraded:
+        run.coverage['harness_note'] = ('host.ParseClientKey / host.ParseConsensusStateKey do not exist in this tree: harness built with '
+                                        'tag c19_noparsekey (their direct cases report a panic)')
     st, slog = states(run.work)
     n = run.budget(500, 20000)
     outp = os.path.join(run.work, 'out.jsonl')
@@ -485,8 +523,8 @@ def check(run):
                                        observed=w['observed'], broken_obligation='schema_ok %s_schema = false' % SCHEMA_NAMES[ty]),
                                   name='replay_schema_%s.json' % SCHEMA_NAMES[ty])
         for i, okb in enumerate(st[1]):
-            if not okb and KEY_STATE_NAMES[i].startswith('host.Packet') or (not okb and KEY_STATE_NAMES[i] == 'host.NextSequenceSendKey'):
-                w = search_key_collision(run, KEY_STATE_NAMES[i])
+            if not okb:
+                w = search_key_collision(run, i)
                 if w:
                     run.violation(dict(kind='key-collision', code=41, what=KINDS[41], cases=w['cases'], observed=w['observed'],
                                        broken_obligation='key_ok %s = false' % KEY_STATE_NAMES[i]),
@@ -500,7 +538,7 @@ def replay(path):
     rp = json.load(open(path))
     work = os.path.join(vlib.ROOT, 'work', 'C19_replay')
     os.makedirs(work, exist_ok=True)
-    ok, out = vlib.build_harness(['c19'])
+    ok, out, _ = build_harness()
     if not ok:
         print('cannot replay: harness does not build: %s' % out[-500:])
         return 2
